@@ -235,3 +235,34 @@ def d5_rule_delegates_to_the_same_question(ctx) -> None:
                               f"(two-way but not reversible, reversible but not two-way) is treated as the other kind")
     if n < 4:
         ctx.floor("D5", 99)
+
+
+def d5b_flag_properties_forward_their_own_flag(ctx) -> None:
+    """The rule's flag properties (`possibly_empty`, `inferrable`, `workable`, `ignore_parent`)
+    forward the strategy's flag *of the same name*.  All four are booleans with the same
+    default, so a property that forwards its neighbour passes every test whose strategies keep
+    the defaults."""
+    P = ctx.P
+    strat_props: Set[str] = set()
+    for k in P.subclasses(P.need_class("AbstractStrategy"), strict=False):
+        strat_props |= {m.name for m in k.methods.values() if "property" in m.decorators}
+    n = 0
+    for cls in P.subclasses(P.need_class("AbstractRule"), strict=False):
+        for m in cls.methods.values():
+            if "property" not in m.decorators or m.name not in strat_props:
+                continue
+            rets = [r for r in m.node.body if isinstance(r, ast.Return) and r.value is not None]
+            if len(rets) != 1:
+                continue
+            v = rets[0].value
+            if not (isinstance(v, ast.Attribute) and isinstance(v.value, ast.Attribute) and isinstance(v.value.value, ast.Name) and v.value.value.id == "self"
+                    and v.value.attr in ("strategy", "_strategy")):
+                continue
+            n += 1
+            if v.attr == m.name:
+                ctx.ok("D5", f"{m.qualname} forwards the strategy's `{m.name}`")
+            elif v.attr in strat_props:
+                ctx.violation("D5", v, f"{m.qualname} forwards `{norm(v)}`, the strategy's `{v.attr}` flag, although the strategy has a `{m.name}` flag of its own: a strategy "
+                              f"for which the two differ (e.g. inferrable=False with possibly_empty=True) is treated by the searcher according to the wrong one")
+    if n < 3:
+        ctx.floor("D5", 99)
